@@ -594,6 +594,47 @@ def form_case(beh):
 
 
 # ----------------------------------------------------------------------------------------------
+# (a3) systems realising the declarations of spec/SolverChains.tla
+# ----------------------------------------------------------------------------------------------
+
+def chain_case(decl):
+    """source S, copies v1 = S, v2 = v1, ... written in the declared order, optional leaf on a link;
+    the source changes its value in every period, so a value taken one period late is visible."""
+    n = int(decl['n'])
+    src = decl['src']
+    c = new_case('chain:%d:%s:%s:%s%s:%s%s' % (
+        n, ''.join(str(i) for i in decl['order']), 'srcfirst' if decl['srcFirst'] else 'srclast',
+        decl['leaf'], (str(decl['leafOn']) + ('f' if decl['leafFirst'] else 'l')) if decl['leaf'] != 'none' else '',
+        src, ':red' if decl['red'] else ':nored'),
+        maxtime=3, reduction=bool(decl['red']), tol_line='1e-6', lam=2.0)
+    source_eqs = []
+    if src == 'sim':
+        source_eqs.append(['x', '0.5*x + cx'])
+        c['exos'].append(['cx', [1.0, 1.0, -2.0, 3.0]])
+        s_name = 'x'
+    elif src == 'exo':
+        c['exos'].append(['x', [2.0, 2.0, -4.0, 5.0]])
+        s_name = 'x'
+    else:
+        source_eqs.append(['w', '0.5*w + cw'])
+        c['exos'].append(['cw', [1.0, -2.0, 3.0, 1.0]])
+        c['ics'].append(['w', '2.0'])
+        c['lags'].append(['LAG_w', 'w'])
+        s_name = 'LAG_w'
+    links = {i: ['v%d' % i, s_name if i == 1 else 'v%d' % (i - 1)] for i in range(1, n + 1)}
+    chain = [links[int(i)] for i in decl['order']]
+    eqs = (source_eqs + chain) if decl['srcFirst'] else (chain + source_eqs)
+    if decl['leaf'] == 'deco':
+        leaf = [['lf', '2*v%d + 1' % int(decl['leafOn'])]]
+    elif decl['leaf'] == 'sim':
+        leaf = [['u', '0.25*u + v%d' % int(decl['leafOn'])]]
+    else:
+        leaf = []
+    c['eqs'] = (leaf + eqs) if decl['leafFirst'] else (eqs + leaf)
+    return c
+
+
+# ----------------------------------------------------------------------------------------------
 # (c) the named designed systems
 # ----------------------------------------------------------------------------------------------
 
@@ -829,6 +870,8 @@ def signature(clause, case, events):
         f = failing_step(events)
         return 'failure-is-not-a-value-or-arithmetic-error:' + str((f or fin).get('exc_type'))
     kind = case['label'].split(':')[0]
+    if kind == 'chain' and clause == 'C02_DecorativeExact':
+        return 'C02_DecorativeExact:copy-chain-value-of-another-period'
     if kind == 'form':
         lab = case['label'].split(':')
         if fin.get('alias_pred') == 'kept' and fin.get('alias_obs') == 'substituted':
